@@ -638,6 +638,19 @@ fn low_level_uncompress_bytes(
     );
 }
 
+/// Verification hook: the code-table selectors of the image format (which table encodes the window
+/// bytes, how many base bits the pair stream uses).
+#[cfg(feature = "verif-hooks")]
+pub(crate) fn verif_format_selectors(lg_k: u8, num_coupons: u32, num_pairs: u32) -> (u8, u8) {
+    let k = 1u32 << lg_k;
+    let base_bits = if num_pairs == 0 {
+        0
+    } else {
+        golomb_choose_number_of_base_bits(k + num_pairs, num_pairs as u64)
+    };
+    (determine_pseudo_phase(lg_k, num_coupons), base_bits)
+}
+
 fn determine_pseudo_phase(lg_k: u8, num_coupons: u32) -> u8 {
     // 64-bit arithmetic: 2375 * k and 1000 * num_coupons exceed u32 for lg_k >= 21
     let k = 1u64 << lg_k;
